@@ -109,6 +109,10 @@ def sem_sig(body, s, depth=0):
         return re.sub(r'^\*+', '*', re.sub(r'#\d+', '', txt))      # `**x` (a captured reference, inlined) reads as `*x`
     if s.kind == 'const':
         return str(s.const).rsplit('::', 1)[-1]
+    if s.kind == 'call' and s.cs.declared in ('core::convert::From::from', 'core::convert::Into::into') and s.cs.args and not s.proj and not s.cs.dest['p'] \
+            and body.locals[s.cs.dest['l']] in BITS and (ty_of(body, s.cs.args[0]) in BITS or width_bounded(body, s.cs.args[0]) is not None):
+        # a lossless integer widening reads the same whether written `x as usize` or `usize::from(x)`
+        return '(%s as %s)' % (operand_sig(body, s.cs.args[0], depth + 1), body.locals[s.cs.dest['l']])
     if s.kind == 'call':
         nm = (s.cs.callee or 'indirect').split('::')[-1]
         base = (s.cs.callee or '').split('::')[-2] if '::' in (s.cs.callee or '') else ''
